@@ -350,3 +350,29 @@ def _watch_args(repo):
     lean = ("def c17WatchArgs : List (String × String × String × Nat) := ["
             + ", ".join(f"({lean_str(a)}, {lean_str(b)}, {lean_str(c)}, {d})" for a, b, c, d in rows) + "]")
     return [list(r) for r in rows], lean
+
+
+@item("C17_STORE_GET")
+def _store_get(repo):
+    """`LoaderStore::get` (the name-keyed store in front of the loader): every call in it whose
+    arguments mention `name` or `loader_result` — the look-ups, the loader call, what is compiled and
+    stored — with the argument text, and how the two `name` bindings read."""
+    src = _strip_comments(read(repo, LOADER))
+    body = fn_body(src, r"pub fn get\(&self, name: &str\) -> Result<&CompiledTemplate<'_>, Error>\s*\{")
+    rows = []
+    for c in re.finditer(r"([\w.:]+)\s*\(", body):
+        callee = c.group(1)
+        args = re.sub(r"\s+", "", _call_args(body, c.end() - 1))
+        if callee in ("Ok", "Some", "ok!", "map") or "||" in args or "|x|" in args:
+            # wrappers and the closures themselves (their bodies are scanned on their own)
+            if "||" in args or "|x|" in args:
+                args = args.split("||")[0].split("|x|")[0].rstrip(",")
+            else:
+                continue
+        if re.search(r"(?<![\w.])(name|loader_result)\b", args):
+            rows.append((callee, args))
+    binds = [re.sub(r"\s+", "", x) for x in re.findall(r"let\s+name\s*(?::[^=;]+)?=\s*(.*?);", body, re.S)]
+    lean = ("def c17StoreGetCalls : List (String × String) := ["
+            + ", ".join(f"({lean_str(a)}, {lean_str(b)})" for a, b in rows) + "]\n"
+            f"def c17StoreGetNameBindings : List String := [{', '.join(lean_str(x) for x in binds)}]")
+    return {"calls": [list(r) for r in rows], "bindings": binds}, lean
